@@ -39,6 +39,13 @@ pub fn drive(t: &mut Tracer, r: &mut Rng, n: usize) {
         if r.chance(2, 3) {
             let s = match r.range(0, 2) { 0 => random_string(r), 1 => { let a = *r.pick(&SEEDS[..]); mutate(r, a) } _ => { let a = *r.pick(&SEEDS[..]); let b = *r.pick(&SEEDS[..]); format!("{}{}", a, mutate(r, b)) } };
             t.call(*r.pick(&PARSERS[..]), json!({"chars": chars(&s)}));
+        } else if r.chance(1, 3) && !zones.is_empty() {
+            // corrupted copies of real TZif files
+            let z = &zones[r.range(0, zones.len() as i64 - 1) as usize];
+            let muts: Vec<Value> = (0..r.range(0, 4)).map(|_| json!([r.range(0, 999), r.range(0, 40), if r.chance(1, 2) { r.range(0, 255) } else { *r.pick(&[0i64, 1, 127, 128, 255][..]) }])).collect();
+            let mut args = json!({"zone": z, "muts": muts});
+            if r.chance(1, 4) { args["trunc"] = json!(r.range(0, 999)); }
+            t.call("TzifBytes.probe", args);
         } else if !zones.is_empty() {
             let z = &zones[zi % zones.len()]; zi += 1;
             let (lbl, ns) = if r.chance(1, 4) { ("random", r.range128(-MAX_INSTANT, MAX_INSTANT)) } else { *r.pick(&labelled) };
